@@ -45,10 +45,43 @@ pub struct CompPlan {
     pub extras: Vec<(u32, u32, u32, bool, crate::ins::VT, i32)>,
     /// made before any iterator exists, through the component-level entry points on one side
     /// (`FunctionBuilder::finish_component`, `Component::add_globals`) and the module-level ones on
-    /// the other: (module in component order, build a function (true) / add a global (false),
-    /// fingerprint or value, signature selector)
+    /// the other: (module in component order, kind, fingerprint or value, argument); kind 0 = add a
+    /// global of that value, 1 = build a function (argument = signature selector), 2 = replace the
+    /// function import with that ImportsID by a built body (same call on both sides; what differs
+    /// afterwards is which iterator walks the module)
     #[serde(default)]
-    pub pre: Vec<(u32, bool, i64, u8)>,
+    pub pre: Vec<(u32, u8, i64, u32)>,
+}
+
+/// (params, results) of the function import `imp` of `m` if a body of constants can be built for it
+fn import_sig(m: &ModuleSpec, imp: u32) -> Option<(Vec<crate::ins::VT>, Vec<crate::ins::VT>)> {
+    use crate::ins::VT;
+    match m.imports.get(imp as usize)?.kind {
+        ImpKind::Func(t) => match &m.flat_types().get(t as usize)?.comp {
+            Comp::Func(p, r) if r.iter().all(|t| matches!(t, VT::I32 | VT::I64 | VT::F32 | VT::F64)) => Some((p.clone(), r.clone())),
+            _ => None,
+        },
+        _ => None,
+    }
+}
+
+fn replace_builder<'a>(magic: i64, p: &[crate::ins::VT], r: &[crate::ins::VT]) -> wirm::ir::function::FunctionBuilder<'a> {
+    use crate::ins::VT;
+    use wirm::opcode::Opcode;
+    let pd: Vec<_> = p.iter().map(|t| t.data_type()).collect();
+    let rd: Vec<_> = r.iter().map(|t| t.data_type()).collect();
+    let mut fb = wirm::ir::function::FunctionBuilder::new(&pd, &rd);
+    fb.i64_const(magic);
+    fb.drop();
+    for t in r {
+        match t {
+            VT::I32 => fb.i32_const(0),
+            VT::I64 => fb.i64_const(0),
+            VT::F32 => fb.f32_const(0.0),
+            _ => fb.f64_const(0.0),
+        };
+    }
+    fb
 }
 
 fn pre_builder<'a>(magic: i64, sig: u8) -> wirm::ir::function::FunctionBuilder<'a> {
@@ -230,9 +263,17 @@ pub fn gen_c26(run_seed: u64) -> Result<Scenario, String> {
     }
     for _ in 0..rng.below(3) {
         let k = rng.below(order.len()) as u32;
-        let build = rng.chance(1, 2);
-        let v = if build { st.func_magic() } else { rng.below(100_000) as i64 };
-        plan.pre.push((k, build, v, rng.below(3) as u8));
+        let m = &plan.modules[order[k as usize] as usize];
+        let repl: Vec<u32> = (0..m.imports.len() as u32).filter(|i| import_sig(m, *i).is_some() && !plan.pre.iter().any(|p| p.0 == k && p.1 == 2 && p.3 == *i)).collect();
+        match rng.below(3) {
+            0 => plan.pre.push((k, 0, rng.below(100_000) as i64, 0)),
+            1 => plan.pre.push((k, 1, st.func_magic(), rng.below(3) as u32)),
+            _ => {
+                if let Some(i) = rng.pick_opt(&repl) {
+                    plan.pre.push((k, 2, st.func_magic(), *i));
+                }
+            }
+        }
     }
     plan.finish = *rng.pick(&[0u8, 1, 1, 2, 2, 2, 3]);
     let hash_seed = rng.next();
@@ -368,14 +409,17 @@ pub fn judge_c26(sc: &Scenario) -> (Judged, RunResult) {
             Err(e) => return herr(format!("library refused generated module: {e}")),
         };
         let skip: Vec<FunctionID> = skip_of(k as u32).iter().map(|f| FunctionID(*f)).collect();
-        for (pk, build, v, sig) in &plan.pre {
+        for (pk, kind, v, arg) in &plan.pre {
             if *pk as usize == k {
-                let r = guarded(|| {
-                    if *build {
-                        *pre_builder(*v, *sig).finish_module(&mut module)
-                    } else {
-                        *module.add_global(ConstE::I32(*v as i32).to_init(), wirm::ir::types::DataType::I32, false, false)
+                let spec = &plan.modules[order[k] as usize];
+                let r = guarded(|| match kind {
+                    1 => *pre_builder(*v, *arg as u8).finish_module(&mut module),
+                    2 => {
+                        let (p, r) = import_sig(spec, *arg).expect("harness: replace target");
+                        replace_builder(*v, &p, &r).replace_import_in_module(&mut module, wirm::ir::id::ImportsID(*arg));
+                        0
                     }
+                    _ => *module.add_global(ConstE::I32(*v as i32).to_init(), wirm::ir::types::DataType::I32, false, false),
                 });
                 match r {
                     Ok(id) => pre_ids_twin.push(Some(id)),
@@ -385,7 +429,19 @@ pub fn judge_c26(sc: &Scenario) -> (Judged, RunResult) {
         }
         let has_visit = {
             let m = &plan.modules[order[k] as usize];
-            (m.num_imp_funcs()..m.num_funcs()).any(|f| !skip.contains(&FunctionID(f))) || plan.pre.iter().any(|p| p.0 as usize == k && p.1)
+            (m.num_imp_funcs()..m.num_funcs()).any(|f| !skip.contains(&FunctionID(f)))
+                || plan.pre.iter().any(|p| {
+                    p.0 as usize == k
+                        && match p.1 {
+                            1 => true,
+                            // the replaced import's function ID = its rank among the function imports
+                            2 => {
+                                let fid = m.imports[..p.3 as usize].iter().filter(|i| matches!(i.kind, ImpKind::Func(_))).count() as u32;
+                                !skip.contains(&FunctionID(fid))
+                            }
+                            _ => false,
+                        }
+                })
         };
         let r = guarded(|| {
             let mut traj: Vec<CVisit> = vec![];
@@ -463,14 +519,17 @@ pub fn judge_c26(sc: &Scenario) -> (Judged, RunResult) {
         // the same pre-ops through the component-level entry points, module by module as on the twin side
         let mut pre_ids_comp: Vec<Option<u32>> = vec![];
         for k in 0..order.len() {
-            for (pk, build, v, sig) in &plan.pre {
+            for (pk, kind, v, arg) in &plan.pre {
                 if *pk as usize == k {
-                    let r = guarded(|| {
-                        if *build {
-                            *pre_builder(*v, *sig).finish_component(&mut comp, ModuleID(k as u32))
-                        } else {
-                            *comp.add_globals(crate::exec::make_global(&ConstE::I32(*v as i32), crate::ins::VT::I32, false), k)
+                    let spec = &plan.modules[order[k] as usize];
+                    let r = guarded(|| match kind {
+                        1 => *pre_builder(*v, *arg as u8).finish_component(&mut comp, ModuleID(k as u32)),
+                        2 => {
+                            let (p, r) = import_sig(spec, *arg).expect("harness: replace target");
+                            replace_builder(*v, &p, &r).replace_import_in_module(&mut comp.modules[k], wirm::ir::id::ImportsID(*arg));
+                            0
                         }
+                        _ => *comp.add_globals(crate::exec::make_global(&ConstE::I32(*v as i32), crate::ins::VT::I32, false), k),
                     });
                     pre_ids_comp.push(r.ok());
                 }
